@@ -54,7 +54,8 @@ def build_world(d):
         ws = []
         for w in p:
             wk = Worker(name=w["name"], resources=Resources(
-                resource_vector={Resource(name=r, _id="any"): q for r, q in w["res"]}, _logger=LG), _logger=LG)
+                resource_vector={Resource(name=e[0], _id=(e[2] if len(e) > 2 else "any")): e[1] for e in w["res"]},
+                _logger=LG), _logger=LG)
             ws.append(wk)
             workers.append(wk)
             widx[w["name"]] = wk
@@ -133,7 +134,16 @@ def rvec(resources_items, res_names):
     return out
 
 
-def extract_instance(sched, flavour, sim_time, tasks, workers, workload, res_names):
+def rvec_by_name(resources_items, res_names):
+    """A worker's vector summarised by resource NAME (entries with distinct ids of one name add up): the worker's true
+    capacity of a resource type, computed here and NOT through Resources.get_unique_resource_types()."""
+    acc = {}
+    for r, q in resources_items:
+        acc[r.name] = acc.get(r.name, 0) + int(q)
+    return [[res_names.index(n), q] for n, q in acc.items()]
+
+
+def extract_instance(sched, flavour, sim_time, tasks, workers, workload, res_names, true_now):
     tl = list(dict((t.unique_name, t) for t in tasks).values())      # the variable map is keyed by unique_name
     if len(tl) != len(tasks):
         raise Unsupported("a task was offered twice")
@@ -164,10 +174,12 @@ def extract_instance(sched, flavour, sim_time, tasks, workers, workload, res_nam
         })
     out_workers = []
     for i, w in workers.items():
-        out_workers.append({"idx": i, "total": rvec(w.resources.resources, res_names),
-                            "avail": rvec(w.resources._resource_vector.items(), res_names)})
+        out_workers.append({"idx": i, "total": rvec_by_name(w.resources.resources, res_names),
+                            "avail": rvec_by_name(w.resources._resource_vector.items(), res_names),
+                            "entries": len(list(w.resources.resources))})
     pa = sched._plan_ahead
-    return {"flavour": flavour, "now": sim_time.to(US).time,
+    # `now` is the time the harness invoked schedule() at, NOT the time the scheduler passes on internally
+    return {"flavour": flavour, "now": int(true_now), "impl_now": sim_time.to(US).time,
             "plan_ahead": -1 if pa == EventTime(-1, US) else pa.to(US).time,
             "disc": sched._time_discretization.to(US).time, "enforce": bool(sched.enforce_deadlines),
             "retract": bool(sched.retract_schedules), "release_tg": bool(sched.release_taskgraphs),
@@ -250,13 +262,16 @@ def scaled_int(x, den, what):
 
 
 def reward_den(inst):
+    """Common denominator of the live objective coefficients (canonicalisation of floats only): computed from the time the
+    IMPLEMENTATION planned from; the model computes its own from the true invocation time and the two are compared."""
     h = inst["plan_ahead"]
     if h == -1:
         for t in inst["tasks"]:
             if t["deadline"] > h:
                 h = t["deadline"]
-    sl = list(range(inst["now"], inst["now"] + h + 1, inst["disc"]))
-    d = sl[-1] - sl[0]
+    now = inst.get("impl_now", inst["now"])
+    sl = list(range(now, now + h + 1, inst["disc"]))
+    d = (sl[-1] - sl[0]) if sl else 0
     return d if d != 0 else 1
 
 
@@ -492,7 +507,8 @@ def run_case(d, probe=None):
     def add_variables(self, sim_time, optimizer, tasks_to_be_scheduled, workers):
         cap["calls"] += 1
         try:
-            cap["inst"] = extract_instance(self, flavour, sim_time, list(tasks_to_be_scheduled), workers, workload, res_names)
+            cap["inst"] = extract_instance(self, flavour, sim_time, list(tasks_to_be_scheduled), workers, workload, res_names,
+                                           d["now"])
             cap["task_objs"] = list(dict((t.unique_name, t) for t in tasks_to_be_scheduled).values())
             cap["workers"] = dict(workers)
         except Unsupported as e:
